@@ -257,7 +257,7 @@ func ReadPatchString(s string) (Diff, error) {
 			diff = append(diff, e)
 		} else {
 			i := len(diff) - 1
-			if diff[i].Path.JsonNode().Equals(e.Path.JsonNode()) {
+			if diff[i].Path.JsonNode().Equals(e.Path.JsonNode()) && !hasContext(e) {
 				diff[i].Remove = append(diff[i].Remove, e.Remove...)
 				// Must be done in reverse order
 				diff[i].Add = append(e.Add, diff[i].Add...)
@@ -266,6 +266,22 @@ func ReadPatchString(s string) (Diff, error) {
 			}
 		}
 	}
+}
+
+// hasContext reports whether a diff element carries its own before or
+// after context (other than array boundary markers).
+func hasContext(e DiffElement) bool {
+	for _, n := range e.Before {
+		if !isVoid(n) {
+			return true
+		}
+	}
+	for _, n := range e.After {
+		if !isVoid(n) {
+			return true
+		}
+	}
+	return false
 }
 
 // setPatchDiffElementContext detects before and/or after context and
